@@ -6,17 +6,22 @@ import AmVerif.Lemmas.Converge
 * `eval_load_hit`, `eval_load_miss_*` — what `eval` does on a `.load` (hot type, cache with reloader).
 * `cleanRun env fin f s p` — the evaluation `eval env f s p` is a **clean loading run** (relative to the
   cache `fin` it ends in): plain constructors and recorded look-ups on the path it takes (misses
-  included, recursively), and none of the three situations in which a load leaves an asset that is
-  not settled: a lost insertion, an absorbed failure, a `get_cached` probe of a key that is absent
-  and gets cached before the load returns.
+  included, recursively), and neither of the two situations in which a load leaves an asset that is
+  not settled: an absorbed failure, a `get_cached` probe of a key that is absent and gets cached
+  before the load returns. (A lost keep-first insertion — a key loaded again while its own loader
+  runs — needs no hypothesis: both registrations are then good, `clean_out`.)
 * `clean_replay` — re-evaluating the body of a clean run in the final cache is a tracked hit-only
   run with the same value and the same record.
-* `clean_msgs` — every `AddAsset` message a clean run sends is `MsgGood`: the asset is cached in the
-  final cache, holds what re-evaluating its loader there returns, and the message carries exactly
-  what that re-evaluation reads.
-* `settled_insertAsset`, `settled_processMsgs`, `settled_keep` — `Settled` through the graph updates
-  and for the assets cached before.
-* `load_settles` — one API load; `loads_settle` — histories of loads and `hot_reload`s.
+* `clean_out` / `clean_msgs` / `clean_registers` — every `AddAsset` message a clean run sends is
+  `MsgGood`: the asset is cached in the final cache, holds what re-evaluating its loader there
+  returns, and the message carries exactly what that re-evaluation reads; every key the run caches
+  has such a message.
+* `settledBut_insert`, `settledBut_drain`, `settled_keep` — `Settled` through the graph updates and
+  for the assets cached before (`NoProbedKeyFilled`).
+* `evalTop_settles`, `load_settles` — one API load from a drained channel; `Pending`,
+  `evalTop_pending`, `load_pending` — loads without a drain in between; `HInv`, `LoadHist`,
+  `loads_settle` — histories of loads and `hot_reload`s.
+* executable checks of the named hypotheses (`noProbedKeyFilledB`, `noPendingKeyFilledB`, `loadOKB`).
 -/
 namespace AmVerif.Model
 open AmVerif.Gen AmVerif.Lemmas.TopoGraph
@@ -719,8 +724,8 @@ theorem evalTop_settles {env : Env} (hS : env.Steady) {fuel : Nat} {s : St} {r :
     · exact Or.inr h
 
 /-- the named hypothesis of `load_settles` on the load itself: the evaluation `load(key)` performs
-from the API is a clean loading run (see `cleanRun`: no lost insertion, no absorbed failure, no
-`get_cached` probe of a key that is cached before the load returns) -/
+from the API is a clean loading run (see `cleanRun`: no absorbed failure, no `get_cached` probe of a
+key that is cached before the load returns) -/
 def CleanLoad (env : Env) (fuel : Nat) (s : St) (key : Key) : Prop :=
   cleanRun env (step env fuel s (.load key)).1 fuel { s with recs := [] } (.load key Prog.ret') = true
 
